@@ -53,7 +53,7 @@ theorem mbp_prefix_str_src : mbp_prefix_str = "host[:len(host)-len(suffix)]" := 
 /-- `FilterRequest`: unfilterable types first; the first hashable name that `Matches`; an empty
 match is no match (`filterRule`, `firstMatch`). -/
 theorem filter_conds_src : filter_conds =
-    "!isFlt | ok | item.matched == \"\" | f.hashes.Matches(s) | matched == \"\" | err != nil" := by decide
+    "!isFlt | ok | item.matched == \"\" | matched == \"\" | err != nil" := by decide
 /-- `refresh` resets the storage, then clears the result cache. -/
 theorem refresh_order_src : refresh_order = "Reset,clearCache" := by decide
 /-- preservice `Wrap`: only TXT questions reach `respondWithHashes` (`respond`: `qt = 16`). -/
@@ -62,12 +62,30 @@ theorem wrap_conds_src : wrap_conds = "ri.QType == dns.TypeTXT | err != nil | re
 theorem wire_adult_src : wire_adult = "b.adultBlockingHashes" := by decide
 theorem wire_general_src : wire_general = "b.safeBrowsingHashes" := by decide
 
-/-- `Hashes` reads the shared pointer once and never through the per-prefix helper; `Matches`
-reads it once through the helper, which loads once: a lookup works on one map, whatever `Reset`
-does meanwhile (`hashesLoads_snapshot`, `hashes_during_resets_spec`). -/
+/-- The builder creates each list's storage, filter and TXT suffix only when its environment switch
+is on (`builtCfg`, `builtLists`), hands the matcher map to `NewMatcher`, and copies the group's
+switches field by field (`enabledLists` reads them). -/
+theorem env_guard_adult_src : env_guard_adult = "!b.env.AdultBlockingEnabled" := by decide
+theorem env_guard_newreg_src : env_guard_newreg = "!b.env.NewRegDomainsEnabled" := by decide
+theorem env_guard_sb_src : env_guard_sb = "!b.env.SafeBrowsingEnabled" := by decide
+theorem matcher_built_src : matcher_built = "hashprefix.NewMatcher(matchers)" := by decide
+theorem grp_sb_danger_src : grp_sb_danger =
+    "&filter.ConfigSafeBrowsing{ Enabled: c.Enabled, DangerousDomainsEnabled: c.BlockDangerousDomains, NewlyRegisteredDomainsEnabled: c.BlockNewlyRegisteredDomains, }" := by rfl
+theorem grp_parental_src : grp_parental =
+    "&filter.ConfigParental{ PauseSchedule: nil, BlockedServices: nil, Enabled: c.Enabled, AdultBlockingEnabled: c.BlockAdult, SafeSearchGeneralEnabled: c.GeneralSafeSearch, SafeSearchYouTubeEnabled: c.YoutubeSafeSearch, }" := by rfl
+
+/-- `Hashes` reads the shared pointer once.  `Matches` reads it once and hands the map to
+`matches`; `MatchesAny` reads it once, before its loop, and hands the same map to `matches` for
+every host; `FilterRequest` asks `MatchesAny` once for all hashable subdomains: a lookup works on
+one map, whatever `Reset` does meanwhile (`hashesLoads_snapshot`, `hashes_during_resets_spec`,
+`firstMatchLoads_snapshot`, `filter_during_resets_spec`). -/
 theorem hashes_loads_src : hashes_loads = "Load" := by decide
-theorem matches_loads_src : matches_loads = "loadHashSuffixes" := by decide
-theorem load_helper_loads_src : load_helper_loads = "Load" := by decide
+theorem matches_loads_src : matches_loads = "Load" := by decide
+theorem matches_return_src : matches_return = "matches(*s.hashSuffixes.Load(), host)" := by decide
+theorem matches_any_calls_src : matches_any_calls = "Load,matches" := by decide
+theorem matches_any_map_src : matches_any_map = "*s.hashSuffixes.Load()" := by decide
+theorem matches_any_conds_src : matches_any_conds = "matches(hashSuffixes, host)" := by decide
+theorem filter_match_call_src : filter_match_call = "f.hashes.MatchesAny(hashableSubdomains(host))" := by decide
 /-- `MatchByPrefix` hands all prefixes of the question to one `Hashes` call. -/
 theorem mbp_hashes_args_src : mbp_hashes_args = "hashPrefixes" := by decide
 
